@@ -197,6 +197,11 @@ func NextToken(l *syntax.Lexer) (syntax.Token, error) {
 	ch := l.GetCurrentChar()
 	switch ch {
 	case syntax.RuneEOF:
+		// RuneEOF (NUL) marks the end of input: a NUL character inside the text would silently
+		// end the program there, so it is rejected like any other unknown character
+		if l.GetCursor() < len(l.Source) {
+			return syntax.Token{}, zerr.InvalidChar(ch, l.GetCursor())
+		}
 		return parseEOF(l)
 	case CharZHU, SlashOp:
 		// save current cursor location (as) savepoint - when parsing 注-like
